@@ -55,18 +55,44 @@ def cases_cfg(d, name, n, l, k, seed):
     return path
 
 
-class Jobs:
-    """TLC runs in the background, at most `slots` at a time with `w` workers each (<= 8 in total)."""
+class Tokens:
+    """At most MAX_TLC_WORKERS TLC worker threads exist at any time, over all concurrent TLC runs."""
 
-    def __init__(self, slots=3, w=2):
-        self.ex = cf.ThreadPoolExecutor(max_workers=slots)
+    def __init__(self, n):
+        import threading
+        self.free = n
+        self.cv = threading.Condition()
+
+    def run(self, spec, cfg, **kw):
+        k = kw.get("workers", 1)
+        with self.cv:
+            while self.free < k:
+                self.cv.wait()
+            self.free -= k
+        try:
+            return tlc.run(spec, cfg, **kw)
+        finally:
+            with self.cv:
+                self.free += k
+                self.cv.notify_all()
+
+
+MAX_TLC_WORKERS = 8
+TOKENS = Tokens(MAX_TLC_WORKERS)
+
+
+class Jobs:
+    """TLC runs in the background (FIFO), each with `w` workers unless it says otherwise."""
+
+    def __init__(self, w=2):
+        self.ex = cf.ThreadPoolExecutor(max_workers=MAX_TLC_WORKERS)
         self.w = w
         self.f = {}
 
     def submit(self, name, spec, cfg, **kw):
         kw.setdefault("workers", self.w)
         kw.setdefault("timeout", 3000)
-        self.f[name] = self.ex.submit(tlc.run, spec, cfg, **kw)
+        self.f[name] = self.ex.submit(TOKENS.run, spec, cfg, **kw)
 
     def get(self, name):
         return self.f.pop(name).result()
@@ -443,32 +469,37 @@ def judge(ctx, records, usemin, reduce, label):
                                                     "Reduce": "TRUE" if reduce else "FALSE"})
     for i, r in enumerate(records):
         r["tid"] = i + 1
-    # chunks of roughly equal query volume
-    chunks, cur, vol = [], [], 0
-    total = sum(len(r["q"]) * max(1, len(r["par"]) // 8) for r in records)
-    target = max(2000, total // 8 + 1)
-    for r in records:
-        cur.append(r)
-        vol += len(r["q"]) * max(1, len(r["par"]) // 8)
-        if vol >= target:
-            chunks.append(cur)
-            cur, vol = [], 0
-    if cur:
-        chunks.append(cur)
+    # many chunks of roughly equal cost (bytes x history size), pulled by a pool of single-worker TLC runs
     keep = ("k", "a", "b", "d", "s", "i", "e", "topo", "rev", "since", "until", "max", "r", "base", "m", "g")
-    paths = []
-    for ci, ch in enumerate(chunks):
-        p = os.path.join(d, f"t{ci}.ndjson")
+    lines = []
+    for r in records:
+        o = {"tid": r["tid"], "par": r["par"], "ts": r["ts"], "rank": r["rank"],
+             "q": [{k: q[k] for k in keep if k in q} for q in r["q"]]}
+        line = json.dumps(o, separators=(",", ":"))
+        lines.append((len(line) * (1 + len(r["par"]) / 12.0), line))
+    total = sum(w for w, _ in lines)
+    nchunks = max(1, min(ctx.pick(8, 40), int(total // 400000) + 1))
+    target = total / nchunks
+    paths, cur, vol = [], [], 0.0
+
+    def flush():
+        p = os.path.join(d, f"t{len(paths)}.ndjson")
         with open(p, "w") as f:
-            for r in ch:
-                o = {"tid": r["tid"], "par": r["par"], "ts": r["ts"], "rank": r["rank"],
-                     "q": [{k: q[k] for k in keep if k in q} for q in r["q"]]}
-                f.write(json.dumps(o, separators=(",", ":")) + "\n")
+            f.write("\n".join(cur) + "\n")
         paths.append(p)
+    for w, line in lines:
+        cur.append(line)
+        vol += w
+        if vol >= target:
+            flush()
+            cur, vol = [], 0.0
+    if cur:
+        flush()
+    del lines
     verdicts = {}
     seen_t = {}
-    with cf.ThreadPoolExecutor(max_workers=8) as ex:
-        futs = [ex.submit(tlc.run, "GraphTrace.tla", cfg, workers=1, timeout=3000, env={"TRACE_FILE": p},
+    with cf.ThreadPoolExecutor(max_workers=MAX_TLC_WORKERS) as ex:
+        futs = [ex.submit(TOKENS.run, "GraphTrace.tla", cfg, workers=1, timeout=3000, env={"TRACE_FILE": p},
                           java_opts=["-Xss64m"]) for p in paths]
         for ci, fu in enumerate(futs):
             res = fu.result()
@@ -545,7 +576,7 @@ def report(ctx, judged):
 # --------------------------------------------------------------------------- entry
 def run(ctx):
     d = ctx.tmpdir("c13")
-    jobs = Jobs(slots=ctx.pick(3, 2), w=ctx.pick(2, 4))
+    jobs = Jobs(w=ctx.pick(2, 4))
     seed = ctx.seed
     # ---- 1. TLC enumerates the cases (spec -> code input)
     jobs.submit("cases4", "GraphCases.tla", cases_cfg(d, "cases4", 4, 4, 0, seed), dump_states=os.path.join(d, "cases4"), workers=3)
@@ -583,9 +614,9 @@ def run(ctx):
         mcs.append(("mc_walk", dict(n=4, l=3, mode="walk", usemin=usemin, reduce=reduce, maxd=1, maxextra=1, inv=INV_WALK)))
         mcs.append(("mc_repaired", dict(n=4, l=3, mode="lcas", usemin=False, reduce=True, maxd=1, inv=INV_LCAS + rep)))
     else:
-        mcs.append(("mc_lcas5", dict(n=5, l=3, mode="lcas", usemin=usemin, reduce=reduce, maxd=1, tiebreak="asc", inv=INV_LCAS + exact)))
-        mcs.append(("mc_ff5", dict(n=5, l=3, mode="ff", usemin=usemin, reduce=reduce, tiebreak="asc", inv=INV_FF + exact)))
         mcs.append(("mc_repaired5", dict(n=5, l=3, mode="lcas", usemin=False, reduce=True, maxd=1, tiebreak="asc", inv=INV_LCAS + rep)))
+        mcs.append(("mc_lcas5", dict(n=5, l=2, mode="lcas", usemin=usemin, reduce=reduce, maxd=1, tiebreak="asc", inv=INV_LCAS + exact)))
+        mcs.append(("mc_ff5", dict(n=5, l=2, mode="ff", usemin=usemin, reduce=reduce, tiebreak="asc", inv=INV_FF + exact)))
         mcs.append(("mc_lcas4", dict(n=4, l=4, mode="lcas", usemin=usemin, reduce=reduce, maxd=3, inv=INV_LCAS + exact)))
         mcs.append(("mc_ff4", dict(n=4, l=4, mode="ff", usemin=usemin, reduce=reduce, inv=INV_FF + exact)))
         mcs.append(("mc_repaired4", dict(n=4, l=4, mode="lcas", usemin=False, reduce=True, maxd=3, inv=INV_LCAS + rep)))
@@ -613,14 +644,17 @@ def run(ctx):
             records += replay_dump(ctx, pool, 6, os.path.join(d, "cases6"), "N=6 sampled clocks", 180)
             os.remove(os.path.join(d, "cases6.dump"))
         # ---- 5. code -> spec: random large histories, disk repositories, commit-graph, C git
-        nbig = ctx.pick(360, 3000)
+        nbig = ctx.pick(360, 2500)
         ndisk = ctx.pick(14, 120)
         tasks = []
         clocks = ["strict", "ties", "skew", "flat", "wild", "ties"]
         for i in range(nbig):
-            n = ctx.rng.choice([8, 10, 12, 16, 24, 40]) if ctx.quick else ctx.rng.choice([8, 12, 16, 24, 40, 80, 150, 300])
-            t = dict(seed=seed * 100003 + i, n=n, clock=clocks[i % 6], nq=ctx.pick(30, 50), ngit=ctx.pick(40, 60),
-                     cuts=(i % 5 == 4))
+            if ctx.quick:
+                n = ctx.rng.choice([8, 10, 12, 16, 24, 40])
+            else:
+                n = ctx.rng.choice([8, 12, 16, 24, 40] * 7 + [80] * 8 + [150] * 5 + [300] * 2)
+            nq = 30 if ctx.quick else (50 if n <= 40 else 30 if n == 80 else 20 if n == 150 else 12)
+            t = dict(seed=seed * 100003 + i, n=n, clock=clocks[i % 6], nq=nq, ngit=ctx.pick(40, 60), cuts=(i % 5 == 4))
             if i < ndisk:
                 t["n"] = min(n, 60)
                 t["disk"] = os.path.join(d, f"disk{i}")
